@@ -1032,6 +1032,21 @@ def quoter(ctx):
             fin.append(b)
     bufs.discard(None)
     if not bufs:
+        # no csv-core writer at all: then every write comes from somewhere else - if from the
+        # input parameter, cells are copied without csv-core's quoting decisions
+        raw = []
+        for b, t in fa.calls():
+            ps = [strip_generics(x) for x in callee_paths(t)]
+            if any(x.endswith("Write::write_all") or x.endswith("Write::write") for x in ps) and len(t["args"]) > 1:
+                if buffer_var(fa, t["args"][1]) == 2:
+                    raw.append(fa.loc(b))
+        if raw:
+            ctx.ob("QUOTER", "%s|writes-only-quoter-output" % p, False, raw[0],
+                   "quote_csv_cell writes the bytes of its input directly (%s) and does not go through the "
+                   "csv-core writer: which cells get quoted and how quotes are doubled is no longer "
+                   "csv-core's decision (a cell starting with `\"` is emitted bare and the row no longer "
+                   "reads back)" % ", ".join(raw[:3]))
+            return
         raise EngineError("QUOTER: csv_core::Writer::field/finish not found in quote_csv_cell")
     nw = 0
     bad = []
